@@ -1,16 +1,23 @@
 -------------------------- MODULE TxValidateCases --------------------------
 (* E: TLC enumerates the abstract case space of TxValidate and exports, for  *)
 (* every case, the judgement of the specification.  One state per case.       *)
+(* T: abstract transactions produced on the Go side (random, boundary-biased, *)
+(* wrapped sums, mutated; up to 13 entries; amounts near 2^63 / 2^64 as       *)
+(* limbs) are read from cases.ndjson and judged by the same operators in the  *)
+(* same run.                                                                  *)
 (*   Family "arith": one asset (BTM itself, or asset A next to a BTM input    *)
 (*     that pays the gas), all multisets of <= MaxIn spend amounts against    *)
 (*     all multisets of <= MaxOut output amounts over the boundary alphabet.  *)
 (*   Family "kinds": all sequences of <= MaxIn inputs of every kind/asset and *)
-(*     <= MaxOut outputs of every kind/asset over the amounts {M, 2M (,0)};   *)
-(*     plus the vote/veto edge cases.                                         *)
-EXTENDS TxValidate, TLC, Json
+(*     <= MaxOut outputs (multisets in the quick tier, sequences otherwise)   *)
+(*     of every kind/asset over the amounts {G, 2G}; plus the vote / veto /   *)
+(*     time-range / size edge cases.                                          *)
+EXTENDS TxValidate, TLC, Json, SequencesExt
 
-CONSTANTS Family,      \* "arith" | "kinds"
-          MaxIn, MaxOut,
+CONSTANTS Family,      \* "arith" | "kinds" | "all"
+          AMaxIn, AMaxOut,   \* family "arith": sizes of the amount multisets
+          AMaxSum,           \*                 and of both together
+          KMaxIn, KMaxOut,   \* family "kinds": numbers of inputs / outputs
           Full         \* TRUE: larger alphabets (thorough tier)
 
 VARIABLE c
@@ -33,17 +40,18 @@ Tx(ins, outs, first) == [ins |-> ins, outs |-> outs, first |-> first, tr |-> "ze
 MkArith(x, si, so) ==
   Tx([i \in 1..Len(si) |-> MkIn("spend", x, Alpha[si[i]])] \o (IF x = BTM THEN <<>> ELSE <<MkIn("spend", BTM, G)>>),
      [j \in 1..Len(so) |-> MkOut("orig", x, Alpha[so[j]])], FALSE)
-ArithCases == {MkArith(x, si, so) : x \in {BTM, "A"}, si \in NDUpTo(1, MaxIn, Len(Alpha)), so \in NDUpTo(0, MaxOut, Len(Alpha))}
 
 KAssets == IF Full THEN {BTM, "A", "B"} ELSE {BTM, "A"}
-KAmts == IF Full THEN {G, LAdd(G, G), LZero} ELSE {G, LAdd(G, G)}
+KAmts == {G, LAdd(G, G)}
 InOpts == {MkIn(k, a, v) : k \in {"spend", "veto"}, a \in KAssets, v \in KAmts}
             \cup {MkIn("issue", a, v) : a \in KAssets \ {BTM}, v \in KAmts}
             \cup {MkIn("coinbase", BTM, LZero)}
 OutOpts == {MkOut(k, a, v) : k \in {"orig", "vote", "retire"}, a \in KAssets, v \in KAmts}
 SeqsUpTo(lo, hi, S) == UNION {[1..n -> S] : n \in lo..hi}
 HasCb(ins) == \E i \in 1..Len(ins) : ins[i].k = "coinbase"
-KindCases == {Tx(ins, outs, f) : ins \in SeqsUpTo(1, MaxIn, InOpts), outs \in SeqsUpTo(0, MaxOut, OutOpts), f \in BOOLEAN}
+OutSeqQ == SetToSeq(OutOpts)
+OutChoices == IF Full THEN SeqsUpTo(0, KMaxOut, OutOpts)            \* every order
+              ELSE {[j \in 1..Len(s) |-> OutSeqQ[s[j]]] : s \in NDUpTo(0, KMaxOut, Len(OutSeqQ))}   \* multisets
 EdgeCases ==
   {Tx(<<MkIn("spend", BTM, LAdd(LAdd(G, G), G))>> \o (IF a = BTM THEN <<>> ELSE <<MkIn("spend", a, v)>>),
       <<[k |-> "vote", a |-> a, v |-> v, key |-> key]>>, FALSE)
@@ -53,11 +61,36 @@ EdgeCases ==
   \cup {[Tx(<<MkIn("spend", BTM, LAdd(G, G))>>, <<MkOut("orig", BTM, G)>>, FALSE) EXCEPT !.tr = t, !.size = s]
           : t \in {"zero", "ok", "past"}, s \in {"pos", "zero"}}
 
-Cases == IF Family = "arith" THEN ArithCases
-         ELSE {t \in KindCases : t.first => HasCb(t.ins)} \cup EdgeCases
+FileCases == ndJsonDeserialize("cases.ndjson")      \* records [id, tx]
+WellFormed(t) == /\ \A i \in Idx(t.ins) : IsLimbs(t.ins[i].v) /\ LLeq(t.ins[i].v, LMaxU64)
+                 /\ \A j \in Idx(t.outs) : IsLimbs(t.outs[j].v) /\ LLeq(t.outs[j].v, LMaxU64)
+ASSUME \A n \in 1..Len(FileCases) : WellFormed(FileCases[n].tx)
 
-Init == /\ c \in Cases
-        /\ PrintT("EXPORT " \o ToJson([id |-> 0, tx |-> c, exp |-> Judge(c)]))
-Next == UNCHANGED c
-DesignOK == Sound(c)
+(* One initial state per SEED (a partial case); its successors complete the seed in  *)
+(* every way.  The workers therefore build and judge the cases in parallel and no     *)
+(* large set of case records is ever materialised.                                    *)
+NChunk == 64
+Seeds ==
+  (IF Family \in {"arith", "all"}
+     THEN {[fam |-> "arith", x |-> x, si |-> si] : x \in {BTM, "A"}, si \in NDUpTo(1, AMaxIn, Len(Alpha))} ELSE {})
+  \cup (IF Family \in {"kinds", "all"}
+     THEN {[fam |-> "kinds", ins |-> ins, first |-> f] : ins \in SeqsUpTo(1, KMaxIn, InOpts), f \in BOOLEAN} \cup {[fam |-> "edge"]}
+     ELSE {})
+  \cup {[fam |-> "file", k |-> k] : k \in 0..(NChunk - 1)}
+
+Emit(id, src, tx) == \E j \in {Judge(tx)} :            \* bound by a quantifier: evaluated once
+                       /\ c' = [lvl |-> 1, seed |-> c.seed, tx |-> tx, sound |-> j.sound]
+                       /\ PrintT("EXPORT " \o ToJson([id |-> id, src |-> src, tx |-> tx, exp |-> j]))
+
+Init == c \in {[lvl |-> 0, seed |-> s] : s \in Seeds}
+Next == /\ c.lvl = 0
+        /\ LET s == c.seed IN
+           CASE s.fam = "arith" -> \E so \in NDUpTo(0, IF AMaxOut < AMaxSum - Len(s.si) THEN AMaxOut ELSE AMaxSum - Len(s.si), Len(Alpha)) :
+                                      Emit(0, "enum", MkArith(s.x, s.si, so))
+             [] s.fam = "kinds" -> /\ s.first => HasCb(s.ins)
+                                   /\ \E outs \in OutChoices : Emit(0, "enum", Tx(s.ins, outs, s.first))
+             [] s.fam = "edge"  -> \E t \in EdgeCases : Emit(0, "enum", t)
+             [] s.fam = "file"  -> \E n \in {x \in 1..Len(FileCases) : x % NChunk = s.k} :
+                                      Emit(FileCases[n].id, "file", FileCases[n].tx)
+DesignOK == c.lvl = 1 => c.sound
 =============================================================================
